@@ -91,7 +91,8 @@ def run(ctx):
                 R.ok('a', 'R2', 'build_download_future: temp dir created < ancillary step < removed on every exit', '', bf.loc())
 
     # ---- (b)
-    ctx.only_constructors('b', VAM, [(VER + '*', 'the verification')], 'ValidatedAncillaryManifest is built only by AncillaryVerifier::verify')
+    ctx.only_constructors('b', VAM, [(VER + '*', 'the verification'), ('<' + VAM + ' as std::clone::Clone>::clone', 'derive(Clone) of an existing value')],
+                          'ValidatedAncillaryManifest is built only by AncillaryVerifier::verify')
     try:
         adt = ws.adt(VAM)
         pubf = [fd['n'] for fd in adt['variants'][0]['fields'] if fd['pub']]
@@ -103,8 +104,8 @@ def run(ctx):
         R.missing('b', e)
     MAN = 'mithril_cardano_node_internal_database::entities::ancillary_files_manifest::AncillaryFilesManifest::'
     ctx.r1('b', VER, Sink('AncillaryFilesManifest::verify_data', MAN + 'verify_data', 'ok'))
-    ctx.r1('b', VER, Sink('ManifestVerifier::verify', ['mithril_common::crypto_helper::manifest_verifier::ManifestVerifier::verify', '*::ManifestVerifier::verify',
-                                                      'mithril_common::crypto_helper::*::verify'], 'ok'))
+    EDV = 'mithril_common::crypto_helper::ed25519::Ed25519Verifier::verify'
+    ctx.r1('b', VER, Sink('Ed25519Verifier::verify (manifest signature)', [EDV], 'ok'))
     v = ctx.try_fn('b', VER)
     if v is not None:
         lv = v.logic()
@@ -118,7 +119,7 @@ def run(ctx):
             R.ok('b', 'R1', 'verify: a missing signature is a failure', '', v.loc())
         else:
             R.violation('b', 'R1', 'verify: a missing signature is a failure', 'verify:signature-present', '', v.loc())
-        mv = [c for c in body.calls() if c.best().endswith('ManifestVerifier::verify') or (c.best().endswith('::verify') and 'manifest' in c.best().lower() and 'verify_data' not in c.best())]
+        mv = [c for c in body.calls() if any(glob_match(EDV, n) for n in c.names())]
         okk = False
         for c in mv:
             o_self = fn_origins(lv, c.args[0], True)
